@@ -78,3 +78,22 @@ def month_bump_oracle(y, m, d, months):
     """expected ordinal of (y,m,d) moved by `months`: same day of month if it exists, else the excess days roll into the next month"""
     y1, m1 = month_target(y, m, months); ny, nm = month_target(y1, m1, 1); dm = dim(y1, m1)
     return X.If(d <= dm, ord_of(y1, m1, d), ord_of(ny, nm, d - dm)), d > dm, y1 != y
+
+def neighbour_gate():
+    """the neighbour lemma used by Ctx.day_both: civil fields of t+i for |i| <= 27 as a case split on t's fields, against CPython"""
+    n = 0
+    spans = [(_rdt.date(1899, 11, 1), _rdt.date(1905, 3, 1)), (_rdt.date(1999, 1, 1), _rdt.date(2001, 3, 1)), (_rdt.date(2095, 1, 1), _rdt.date(2105, 1, 1)), (_rdt.date(2299, 1, 1), _rdt.date(2300, 3, 1))]
+    for a, b in spans:
+        t = a
+        while t < b:
+            y, m, d = t.year, t.month, t.day; dm = core.dim_py(y, m)
+            py, pm = (y - 1, 12) if m == 1 else (y, m - 1); pdm = core.dim_py(py, pm)
+            ny, nm = (y + 1, 1) if m == 12 else (y, m + 1)
+            for i in range(-27, 28):
+                if i >= 0: trip = (y, m, d + i) if d + i <= dm else (ny, nm, d + i - dm)
+                else: trip = (y, m, d + i) if d + i >= 1 else (py, pm, d + i + pdm)
+                u = t + _rdt.timedelta(i)
+                if trip != (u.year, u.month, u.day): return False, dict(mismatch = str((t, i)))
+                n += 1
+            t += _rdt.timedelta(1)
+    return True, dict(comparisons = n)
